@@ -5,6 +5,7 @@ P=$1; shift
 cd /verif
 git -C /repo apply --check "$P" 2>/dev/null || { echo "PATCH DOES NOT APPLY: $P"; exit 2; }
 git -C /repo apply "$P"
+EVBAK=$(mktemp -d /tmp/vt_evbak.XXXX); cp -a /verif/evidence/. $EVBAK/
 for prop in "$@"; do
   out=$(./check $prop 2>&1 | grep -E "VIOLATION|KNOWN|obligations" | cut -c1-260)
   echo "--- $prop"; echo "$out"
@@ -13,4 +14,5 @@ import json,sys
 r=json.load(open('$f')); print('    what:', r.get('what','')[:300].replace('\n',' ')); print('    broken:', [b if isinstance(b,str) else b.get('name') for b in r.get('broken_obligations',[])][:4])"; done
 done
 git -C /repo checkout -- .
+cp -a $EVBAK/. /verif/evidence/; rm -rf $EVBAK   # evidence files must come from runs on the unchanged tree
 git -C /repo status --short | head -3
